@@ -510,14 +510,36 @@ Proof.
   replace (n <? 0) with true by (symmetry; apply Z.ltb_lt; lia). reflexivity.
 Qed.
 
-(* >> is the floor division by 2^n, for every count that fits uint *)
+(* >> is the floor division by 2^n, for every count that fits uint; the
+   result of the big representation is rejected beyond 512 bits (only
+   possible when the operand itself, a float or rational constant with an
+   integer value, is beyond 512 bits) *)
 Theorem shr_exact small z n : 0 <= n -> in64 n ->
   shift_int OShr small z (Num (I64 n)) =
-    Ok (Num (if small then I64 (z / 2 ^ n) else Big (z / 2 ^ n))).
+    if small then Ok (Num (I64 (z / 2 ^ n)))
+    else if Z.abs (z / 2 ^ n) <? 2 ^ 512 then Ok (Num (Big (z / 2 ^ n))) else Err EShlOverflow.
 Proof.
   intros Hn H64. unfold shift_int. rewrite shift_count_i64 by assumption.
   replace (n <? 0) with false by (symmetry; apply Z.ltb_ge; lia).
-  cbn [cst_uint rc_uint]. rewrite shr_spec by assumption. destruct small; reflexivity.
+  cbn [cst_uint rc_uint]. rewrite shr_spec by assumption. destruct small; [reflexivity|].
+  destruct (Z.ltb_spec (Z.abs (z / 2 ^ n)) (2 ^ 512)) as [H|H].
+  - apply big_overflow_false in H. rewrite H. reflexivity.
+  - apply big_overflow_true in H. rewrite H. reflexivity.
+Qed.
+
+(* an operand below 512 bits is never rejected by >> *)
+Theorem shr_no_overflow z n : 0 <= n -> in64 n -> Z.abs z < 2 ^ 512 ->
+  shift_int OShr false z (Num (I64 n)) = Ok (Num (Big (z / 2 ^ n))).
+Proof.
+  intros Hn H64 Hz. rewrite shr_exact by assumption.
+  assert (0 < 2 ^ n) by (apply Z.pow_pos_nonneg; lia).
+  replace (Z.abs (z / 2 ^ n) <? 2 ^ 512) with true; [reflexivity|].
+  symmetry. apply Z.ltb_lt.
+  assert (- 2 ^ 512 < z / 2 ^ n < 2 ^ 512); [|lia].
+  split.
+  - apply Z.lt_le_trans with (m := - 2 ^ 512 + 1); [lia|].
+    apply Z.div_le_lower_bound; [lia|]. nia.
+  - apply Z.div_lt_upper_bound; [lia|]. nia.
 Qed.
 
 Lemma shr_in64 z n : 0 <= n -> in64 z -> in64 (z / 2 ^ n).
